@@ -104,6 +104,10 @@ def run(ctx, anchors=None):
     cf = fb.fn("Instance::configure_tx_txin")
     se = fb.fn("Instance::setup_environment")
     ccfg, secfg = cf.cfg(), se.cfg()
+
+    from . import common as _cm
+    _cm.require_names(cf, ["sigver", "execdata"], "R02.2")
+    _cm.require_names(se, ["execdata", "env"], "R02.2")
     tr_sv = [n for n in cf.nodes() if n["k"] == "assign" and astq.estr(n["lhs"]) == "sigver" and astq.estr(n["rhs"]).endswith("TAPROOT")]
     ts_sv = [n for n in cf.nodes() if n["k"] == "assign" and astq.estr(n["lhs"]) == "sigver" and astq.estr(n["rhs"]).endswith("TAPSCRIPT")]
     if not tr_sv or not ts_sv:
@@ -148,6 +152,9 @@ def run(ctx, anchors=None):
     if not shs:
         raise AnalysisBroken("SignatureHashSchnorr not found")
     sh = shs[0]
+
+    from . import common as _cm
+    _cm.require_names(sh, ["ss", "ext_flag", "key_version", "hash_type", "output_type", "input_type", "spend_type", "have_annex", "cache", "execdata", "tx_to", "in_pos", "sigversion"], "R02.3")
     evs = guarded_events(sh, "ss")
     got = [(o, [g for g in gd if not g.startswith("!(!execdata.m_output_hash") and "in_pos >= tx_to.vout.size()" not in g and "m_bip341" not in g]) for (o, gd, n) in evs]
     want = [(e["operand"], e["when"]) for e in spec["bip341"]]
@@ -240,6 +247,7 @@ def run(ctx, anchors=None):
     if not sig:
         raise AnalysisBroken("SignatureHash not found")
     sg = sig[0]
+    _cm.require_names(sg, ["ss", "hashPrevouts", "hashSequence", "hashOutputs", "nHashType", "nIn", "txTo", "scriptCode", "amount", "sigversion"], "R02.3")
     e143 = [(o, gd) for (o, gd, n) in guarded_events(sg, "ss") if any("WITNESS_V0" in g and not g.startswith("!") for g in gd)]
     outer = [x for x in e143 if len(x[1]) == 1]
     got143 = [o for (o, gd) in outer]
@@ -287,6 +295,7 @@ def run(ctx, anchors=None):
     if not ser or not ctor:
         raise AnalysisBroken("legacy signature serializer not found")
     sf = ser[0]
+    _cm.require_names(sf, ["s", "txTo", "nInputs", "nOutputs", "fAnyoneCanPay", "fHashNone", "fHashSingle", "nIn"], "R02.3")
     seq = []
     for st in (sf.body["ch"] if sf.body.get("k") == "block" else []):
         for n in walk(st):
@@ -352,6 +361,7 @@ def run(ctx, anchors=None):
     if not css:
         raise AnalysisBroken("CheckSchnorrSignature not found")
     cs = css[0]
+    _cm.require_names(cs, ["sig", "hashtype", "sighash"], "R02.6")
     ccfg = cs.cfg()
     size_rej = [n for n in cs.nodes() if n["k"] == "if" and astq.estr(n["cond"]).replace(" ", "") in ("((sig.size()!=64)&&(sig.size()!=65))",) and any("SCHNORR_SIG_SIZE" in astq.estr(x) for x in walk(n["then"]))]
     b65 = [n for n in cs.nodes() if n["k"] == "if" and astq.estr(n["cond"]).replace(" ", "") == "(sig.size()==65)"]
